@@ -5,7 +5,7 @@ CHECK = {
     "level": "exploration",
     "rule": "T1: every stored record of {4 keys x 6 values x record format v1/v2 x term 1..3 x plain/transactional read path} under "
             "every single-bit flip, every truncation, 1-byte extensions, term-header and version-byte rewrites and every "
-            "cross-key transplant, read back through the real barrier. T2: every API workload of depth <=2 (thorough 3) over a "
+            "cross-key transplant, read back through the real barrier. T2: every API workload of depth <=2 (thorough 4) over a "
             "12-operation alphabet on a real Core; EVERY physical put of the server's whole life (init and unseal included) is "
             "checked by an independent AES-GCM opener (record opens under the keyring key of its term with the physical key as "
             "AAD) or must belong to the fixed bootstrap set, and every value is scanned for the workload's canaries (raw, hex, "
